@@ -237,9 +237,27 @@ fn loop_jobs<'a>(
 
 /// Hand a gradual calculator around a ring of threads between steps.
 fn case_handover(t: &mut Tape, info: &mut CaseInfo) -> Result<(), String> {
-    let spec = gen_map(t, &MapProfile::small(ALL_MODES, 25));
+    let mut spec = gen_map(t, &MapProfile::small(ALL_MODES, 25));
+    // sync build, a fifth of the cases: one taiko colour for 130-400 consecutive hits (a mono streak far longer
+    // than in any fixture), so that per-streak bookkeeping is exercised across hand-overs
+    let mono = cfg!(feature = "sync") && t.chance(1, 5);
+    if mono {
+        let n = t.range(130, 400) as usize;
+        let sound = *t.pick(&[0u8, 8]);
+        let mut time = 0.0;
+        spec.mode = t.below(2) as u8;
+        spec.objects = (0..n)
+            .map(|_| {
+                time += *t.pick(&[150.0, 100.0, 200.0, 300.0, 75.0]);
+                crate::gen::map::ObjSpec { x: 256, y: 192, time, kind: crate::gen::map::ObjKind::Circle, sound, custom_sample: false }
+            })
+            .collect();
+        info.label("taiko-mono-streak>=130");
+    }
     // with the `sync` feature every mode's calculator is Send; without it only the non-taiko ones
-    let target = if cfg!(feature = "sync") {
+    let target = if mono {
+        GameMode::Taiko
+    } else if cfg!(feature = "sync") {
         if spec.mode == 0 {
             mode_of(*t.pick(&[1u8, 1, 0, 2, 3]))
         } else {
@@ -362,10 +380,10 @@ pub fn property() -> Property {
             },
             SubCheck {
                 name: "gradual-handover-ring",
-                rule: "a gradual difficulty calculator (sync build: every mode incl. taiko and converts; default build: the Send ones, i.e. osu/catch/mania types) is handed by value around a ring of 2-8 threads over channels; a generated schedule says which thread performs step j. Oracle: the produced sequence equals the single-thread sequence (all fields). Non-trivial: >=2 hand-overs and >=2 values.",
+                rule: "a gradual difficulty calculator (sync build: every mode incl. taiko and converts; default build: the Send ones, i.e. osu/catch/mania types) is handed by value around a ring of 2-8 threads over channels; a generated schedule says which thread performs step j; in the sync build a fifth of the maps is a single-colour taiko stream of 130-400 hits. Oracle: the produced sequence equals the single-thread sequence (all fields). Non-trivial: >=2 hand-overs and >=2 values.",
                 quick: 1500,
                 thorough: 25_000,
-                tape_len: 1500,
+                tape_len: 2200,
                 f: case_handover,
                 direct: None,
             },
